@@ -15,7 +15,9 @@ MANIFEST = {
             "on/off x cut-offs that stop early x widths {None,1,2}): EVERY composition of the trace, i.e. all 2^(T-1)-1 ways of cutting "
             "it into successive extensions, is executed on one matcher as match(prefix), match(longer prefix, expand=True), ... and the "
             "canonical result after the last extension (index, best probability, states, best-path keys and per-state probabilities) "
-            "must equal that of match(trace) on a fresh matcher.",
+            "must equal that of match(trace) on a fresh matcher. Third session: non_emitting_states_maxnb = 1 configurations; a second "
+            "session on the SAME matcher object (after an incremental match of the trace, the reversed trace is matched incrementally and "
+            "must equal its one-shot match on a fresh matcher).",
     "note": "Trusted: the comparison. Strict equality including the path: both runs generate candidates in the same order, so the "
             "statement's 'same best path' is taken literally. Thorough tier: traces of length 5 on the named graphs, 4-node family.",
     "technique": "explicit enumeration of all operation histories (compositions of the trace) on the real object, differential oracle against the one-shot run",
@@ -125,6 +127,34 @@ def run_case(case):
                     res["v"].append({"msg": f"{al.describe_graph(graph)} trace {trace} cfg {c}: cutting at {cuts} and extending gives a different "
                                             f"{what}: incremental {got[:3]} vs one-shot {ref[:3]}",
                                      "case": {"gs": egraph, "pos": pos, "slice": case["slice"], "trace": trace, "cfg": c, "cuts": cuts}})
+            # a second session on the SAME matcher object: after an incremental match of `trace`, the reversed trace is
+            # matched incrementally (plain match of its first observation, then one extension) and must equal its one-shot
+            # match on a fresh matcher
+            if T >= 2 and "cuts" not in case or case.get("second_session"):
+                back = list(trace[::-1])
+                mf = ms.make_matcher(mp, c)
+                try:
+                    ref2 = ms.canon(mf, mf.match(list(back)))
+                except Exception as exc:  # noqa
+                    ref2 = ("EXC", repr(exc))
+                mu = ms.make_matcher(mp, c)
+                try:
+                    mu.match(list(trace[:1]))
+                    mu.match(list(trace), expand=True)
+                    mu.match(list(back[:1]))
+                    got2 = ms.canon(mu, mu.match(list(back), expand=True))
+                except Exception as exc:  # noqa
+                    got2 = ("EXC", repr(exc))
+                res["n"] += 5
+                res["tr"] += 5
+                res["tv"] += 1
+                same2 = got2 == ref2 or (got2[0] != "EXC" and ref2[0] != "EXC" and got2[0] == ref2[0] and got2[2] == ref2[2] and
+                                         [k for k, _ in got2[3]] == [k for k, _ in ref2[3]] and
+                                         all(abs(a[1] - b[1]) <= 1e-12 * max(1.0, abs(b[1])) for a, b in zip(got2[3], ref2[3])))
+                if not same2:
+                    res["v"].append({"msg": f"{al.describe_graph(graph)} trace {trace} cfg {c}: second session on the same matcher (incremental match of the "
+                                            f"reversed trace after an incremental match of the trace) gives {got2[:3]}, one-shot on a fresh matcher {ref2[:3]}",
+                                     "case": {"gs": egraph, "pos": pos, "slice": case["slice"], "trace": trace, "cfg": c, "cuts": [1], "second_session": True}})
     res["out"] = sorted(outs, key=repr)[:1000]
     res["v"] = res["v"][:30]
     return res
